@@ -100,6 +100,13 @@ package rules
 //   PB3 in-place reverse of one slice; PB4 reslice of one -> exit 1. Preserving, exit 0: PP1 make+rename+swapped
 //   appends; PP2 sorted keys, both built from the key (qos = Topics[k]); PP3 indexed fill with a shared index.
 //
+// Robustness pass (c14_roles.go; drivers out/mut5.py = refactoring variants as overlays, out/mut6.py = mutants on
+// top of the refactored trees): anchors are resolved by role (node type = struct with map[string]*self, level
+// cache = struct with *lru.Cache, split/get/sources and the TopicManager / Session methods by signature), method
+// values in locals are call sites, loops are read in all three element-wise forms, and every rule looks at the
+// anchored function together with the helpers it calls (reach + parameter bindings, flow inlining restricted to
+// the helpers that matter). Silent on preserving/C14 r1-r4, C15 r1/r3/r4, C16 r2 (r4/C16 r2 hand-ported to HEAD).
+//
 // GENUINE DEFECTS found on the tree of the first pass (since fixed in /repo: 8fc741a, 90acb3c; demo out/zz_triage_test.go):
 //   R-C14-6 |(TopicManager).subscribe|all-or-nothing            — out/fix-1.diff
 //   R-C14-6 |(TopicManager).unsubscribe|every filter processed  — out/fix-2.diff
@@ -129,6 +136,8 @@ type c14env struct {
 	writers    map[*types.Func]bool          // insert / remove (functions that store into the trie)
 
 	insertPrevalidated bool // every insert call site is preceded by a validation loop over the batch
+
+	roles *c14roleSet
 }
 
 func c14(c *core.Ctx) string {
@@ -178,11 +187,7 @@ func c14newEnv(c *core.Ctx) *c14env {
 		c.Errorf("anchor: package %s not loaded", mq)
 		return nil
 	}
-	e.nodesF = structField(c, mq, "topicNode", "nodes")
-	e.clientsF = structField(c, mq, "topicNode", "clients")
-	e.rootF = structField(c, mq, "TopicManager", "root")
-	e.dataF = structField(c, mq, "topicLevelManager", "data")
-	if e.nodesF == nil || e.clientsF == nil || e.rootF == nil || e.dataF == nil {
+	if !e.resolveRoles() {
 		return nil
 	}
 	e.findCollectors()
@@ -431,7 +436,7 @@ type c14source struct {
 // levelSource finds `levels, err := mgr.getLevels(topic)` (callee getLevels or
 // topicLevelManager.get). A missing source is a checker error (subject).
 func (e *c14env) levelSource(f *flow.Func, cons string) *c14source {
-	srcs := callsTo(f, f.Body, false, "(*"+mq+".TopicManager).getLevels", "(*"+mq+".topicLevelManager).get")
+	srcs := e.sourceCalls(f, f.Body, false)
 	if len(srcs) != 1 {
 		e.c.Errorf("R-C14-2: anchor: %s has %d calls to the level source (getLevels), expected exactly 1", cons, len(srcs))
 		return nil
@@ -610,12 +615,52 @@ func c14Mutators(e *c14env) {
 			case *ast.SelectorExpr:
 				inCall[fn.Sel] = true
 			}
-			if fo, ok := f.Callee(call).(*types.Func); ok && decls[fo] != nil {
+			if fo := c14calleeOf(f, call); fo != nil && decls[fo] != nil {
 				callSites[fo] = append(callSites[fo], site{fd, call})
 			}
 		}
+		// a method value stored in a local that is only ever called (`h := x.m; h(..)`) is a call
+		// site in another spelling, not an escaping function value
+		benign := map[*ast.Ident]bool{}
 		ast.Inspect(fd.Body, func(n ast.Node) bool {
-			if id, ok := n.(*ast.Ident); ok && !inCall[id] {
+			as, ok := n.(*ast.AssignStmt)
+			if !ok || len(as.Lhs) != len(as.Rhs) {
+				return true
+			}
+			for i, l := range as.Lhs {
+				lid, ok := l.(*ast.Ident)
+				if !ok {
+					continue
+				}
+				v := c14obj(f, lid)
+				if v == nil {
+					continue
+				}
+				onlyCalled := true
+				ast.Inspect(fd.Body, func(m ast.Node) bool {
+					if id, ok := m.(*ast.Ident); ok && f.Info.Uses[id] == v && !inCall[id] {
+						onlyCalled = false
+					}
+					return true
+				})
+				if !onlyCalled {
+					continue
+				}
+				if fo, _ := c14funcValue(f, lid); fo == nil {
+					// lid is a definition: resolve through a use of the same variable
+					continue
+				}
+				switch r := ast.Unparen(as.Rhs[i]).(type) {
+				case *ast.SelectorExpr:
+					benign[r.Sel] = true
+				case *ast.Ident:
+					benign[r] = true
+				}
+			}
+			return true
+		})
+		ast.Inspect(fd.Body, func(n ast.Node) bool {
+			if id, ok := n.(*ast.Ident); ok && !inCall[id] && !benign[id] {
 				if fo, ok := f.Info.Uses[id].(*types.Func); ok && decls[fo] != nil {
 					valueUse[fo] = id
 				}
@@ -964,99 +1009,141 @@ func c14QoS(e *c14env) {
 			sprintf("the collector stores something other than the (client, qos) pair of the node's clients map at %s: the routed QoS/client is not one of the client's own matching subscriptions", pos(c, badAt)))
 	}
 
-	// findSubscribers: the result map is written only through collect sites and not handed elsewhere
-	if f := fnOpt(c, mq, "TopicManager", "findSubscribers"); f != nil {
-		cons := fname(mq, "TopicManager", "findSubscribers")
-		cols := e.collects(f, f.Body)
+	// the matcher: the result map is written only through collect sites and not handed elsewhere.
+	// Decided over the reach of the matcher: a helper that receives the result map is scanned too.
+	if f := e.role("find").f; f != nil {
+		cons := e.role("find").cons
+		bind := c14bindings(f, 3)
+		// the result map = first result of the success returns
 		var result types.Object
-		for _, cl := range cols {
-			if cl.dst != nil {
-				result = cl.dst
+		ast.Inspect(f.Body, func(n ast.Node) bool {
+			if r, ok := n.(*ast.ReturnStmt); ok && len(r.Results) == 2 && f.Info.Types[r.Results[1]].IsNil() {
+				if o := c14obj(f, r.Results[0]); o != nil {
+					if _, isMap := o.Type().Underlying().(*types.Map); isMap {
+						result = o
+					}
+				}
 			}
+			return true
+		})
+		if result == nil && f.Type.Results != nil && len(f.Type.Results.List) > 0 && len(f.Type.Results.List[0].Names) == 1 {
+			result = f.Info.Defs[f.Type.Results.List[0].Names[0]] // named result
 		}
 		if result != nil {
 			bad := ""
 			var badAt ast.Node
 			var escaped *ast.CallExpr
-			inlineX := map[ast.Expr]bool{}
-			for _, cl := range cols {
-				if cl.call == nil {
-					inlineX[cl.at.(ast.Expr)] = true
-				}
+			var escapedIn *flow.Func
+			nCols := 0
+			isResult := func(g *flow.Func, x ast.Expr) bool {
+				return c14denotes(bind, g, c14obj(g, x), result, 4)
 			}
-			pm := parentMap(f.Body)
-			ast.Inspect(f.Body, func(n ast.Node) bool {
-				switch t := n.(type) {
-				case *ast.AssignStmt:
-					for i, l := range t.Lhs {
-						ix, ok := ast.Unparen(l).(*ast.IndexExpr)
-						if !ok || c14obj(f, ix.X) != result {
-							continue
-						}
-						okStore := false
-						for p := pm[t]; p != nil; p = pm[p] {
-							if r, ok := p.(*ast.RangeStmt); ok && inlineX[r.X] && r.Key != nil && r.Value != nil && len(t.Lhs) == len(t.Rhs) {
-								okStore = c14obj(f, ix.Index) == c14obj(f, r.Key) && c14obj(f, t.Rhs[i]) == c14obj(f, r.Value)
-								break
+			for _, g := range reach(f, 3) {
+				g := g
+				if gd, ok := g.Node.(*ast.FuncDecl); ok && e.collectors[e.funcObj(gd)] != nil {
+					continue
+				}
+				cols := e.collects(g, g.Body)
+				inlineX := map[ast.Expr]bool{}
+				for _, cl := range cols {
+					nCols++
+					if cl.call == nil {
+						inlineX[cl.at.(ast.Expr)] = true
+					}
+				}
+				pm := parentMap(g.Body)
+				ast.Inspect(g.Body, func(n ast.Node) bool {
+					switch t := n.(type) {
+					case *ast.AssignStmt:
+						for i, l := range t.Lhs {
+							ix, ok := ast.Unparen(l).(*ast.IndexExpr)
+							if !ok || !isResult(g, ix.X) {
+								continue
+							}
+							okStore := false
+							for p := pm[t]; p != nil; p = pm[p] {
+								if r, ok := p.(*ast.RangeStmt); ok && inlineX[r.X] && r.Key != nil && r.Value != nil && len(t.Lhs) == len(t.Rhs) {
+									okStore = c14obj(g, ix.Index) == c14obj(g, r.Key) && c14obj(g, t.Rhs[i]) == c14obj(g, r.Value)
+									break
+								}
+							}
+							if !okStore {
+								bad, badAt = "a store into the result map does not copy a (client, qos) pair of a node's clients map", t
 							}
 						}
-						if !okStore {
-							bad, badAt = "a store into the result map does not copy a (client, qos) pair of a node's clients map", t
+					case *ast.CallExpr:
+						if _, isB := g.Callee(t).(*types.Builtin); isB {
+							return true
+						}
+						fo := c14calleeOf(g, t)
+						if fo != nil && e.collectors[fo] != nil {
+							return true
+						}
+						if fo != nil && fo.Pkg() == g.Pkg.Types && declOf(g.Pkg, fo) != nil {
+							return true // a helper of the matcher: its body is part of the reach
+						}
+						for _, a := range t.Args {
+							if isResult(g, a) {
+								escaped, escapedIn = t, g
+							}
 						}
 					}
-				case *ast.CallExpr:
-					if _, isB := f.Callee(t).(*types.Builtin); isB {
-						return true
-					}
-					if fo, ok := f.Callee(t).(*types.Func); ok && e.collectors[fo] != nil {
-						return true
-					}
-					for _, a := range t.Args {
-						if c14obj(f, a) == result {
-							escaped = t
-						}
-					}
-				}
-				return true
-			})
+					return true
+				})
+			}
 			if escaped != nil && bad == "" {
-				c.Undecide("R-C14-5", cons+"|result map written only by collect sites", pos(c, escaped), "the result map is handed to "+f.Render(escaped.Fun)+", which is not a recognised collector: stores made there cannot be attributed")
+				c.Undecide("R-C14-5", cons+"|result map written only by collect sites", pos(c, escaped), "the result map is handed to "+escapedIn.Render(escaped.Fun)+", which is neither a collector nor a function of this package: stores made there cannot be attributed")
 				return
 			}
 			c.Check(bad == "", "R-C14-5", cons+"|result map written only by collect sites", pos(c, f.Body),
-				sprintf("%d collect sites; no other store into or escape of the result map", len(cols)), bad+" ("+pos(c, badAt)+")")
+				sprintf("%d collect sites in the matcher and its helpers; no other store into or escape of the result map", nCols), bad+" ("+pos(c, badAt)+")")
 		}
 	}
 
 	// insert: clients[clientParam] = qosParam
-	if f := fnOpt(c, mq, "TopicManager", "insert"); f != nil {
-		cons := fname(mq, "TopicManager", "insert")
-		src := callsTo(f, f.Body, false, "(*"+mq+".TopicManager).getLevels", "(*"+mq+".topicLevelManager).get")
+	if f := e.role("insert").f; f != nil {
+		cons := e.role("insert").cons
+		src := e.sourceCalls(f, f.Body, false)
 		var topicParam types.Object
 		if len(src) == 1 && len(src[0].Args) == 1 {
 			topicParam = c14obj(f, src[0].Args[0])
 		}
 		n := 0
-		for _, w := range e.trieWrites(f, f.Body) {
-			as, ok := w.at.(*ast.AssignStmt)
-			if !ok || w.field != e.clientsF {
+		bind := c14bindings(f, 2)
+		// standsForParam: o is a parameter of insert, or a helper's parameter bound to one
+		standsForParam := func(g *flow.Func, o types.Object) types.Object {
+			for _, p := range c14params(f) {
+				if c14denotes(bind, g, o, p, 3) {
+					return p
+				}
+			}
+			return nil
+		}
+		for _, g := range reach(f, 2) {
+			if g != f && len(e.sourceCalls(g, g.Body, false)) > 0 {
 				continue
 			}
-			for i, l := range as.Lhs {
-				ix, ok := ast.Unparen(l).(*ast.IndexExpr)
-				if !ok {
+			for _, w := range e.trieWrites(g, g.Body) {
+				as, ok := w.at.(*ast.AssignStmt)
+				if !ok || w.field != e.clientsF {
 					continue
 				}
-				if _, isClients := c14fieldRecv(f, ix.X, e.clientsF); !isClients || len(as.Lhs) != len(as.Rhs) {
-					continue
+				for i, l := range as.Lhs {
+					ix, ok := ast.Unparen(l).(*ast.IndexExpr)
+					if !ok {
+						continue
+					}
+					if _, isClients := c14fieldRecv(g, ix.X, e.clientsF); !isClients || len(as.Lhs) != len(as.Rhs) {
+						continue
+					}
+					n++
+					k, v := standsForParam(g, c14obj(g, ix.Index)), standsForParam(g, c14obj(g, as.Rhs[i]))
+					okK := k != nil && k != topicParam && types.Identical(k.Type().Underlying(), types.Typ[types.String])
+					okV := v != nil && c14isByte(v.Type())
+					c.Check(okK && okV, "R-C14-5", cons+"|stores the caller's qos under the caller's client id", pos(c, as),
+						"clients[<client id parameter>] = <qos parameter>",
+						"insert does not store its qos parameter under its client-id parameter: the subscription is recorded for another key or with another QoS than requested")
 				}
-				n++
-				k, v := c14obj(f, ix.Index), c14obj(f, as.Rhs[i])
-				okK := k != nil && c14isParam(f, k) && k != topicParam && types.Identical(k.Type().Underlying(), types.Typ[types.String])
-				okV := v != nil && c14isParam(f, v)
-				c.Check(okK && okV, "R-C14-5", cons+"|stores the caller's qos under the caller's client id", pos(c, as),
-					"clients[<client id parameter>] = <qos parameter>",
-					"insert does not store its qos parameter under its client-id parameter: the subscription is recorded for another key or with another QoS than requested")
 			}
 		}
 		c.RequireCount("R-C14-5", "clients stores in insert", n, 1)
@@ -1064,9 +1151,9 @@ func c14QoS(e *c14env) {
 	}
 
 	// subscribe: insert(topics[i], qoss[i], client)
-	if f := fnOpt(c, mq, "TopicManager", "subscribe"); f != nil {
-		cons := fname(mq, "TopicManager", "subscribe")
-		ins := callsTo(f, f.Body, false, "(*"+mq+".TopicManager).insert")
+	if f := e.role("subscribe").f; f != nil {
+		cons := e.role("subscribe").cons
+		ins := c14callsToFn(f, f.Body, false, e.role("insert").obj)
 		c.RequireCount("R-C14-5", "insert call sites in subscribe", len(ins), 1)
 		pm := parentMap(f.Body)
 		for _, call := range ins {
@@ -1121,52 +1208,86 @@ func c14InsertAlways(e *c14env, f *flow.Func, cons string) {
 	c := e.c
 	const ev = "ev:c14:qosStored"
 	stores := map[ast.Node]bool{}
-	for _, w := range e.trieWrites(f, f.Body) {
-		if as, ok := w.at.(*ast.AssignStmt); ok && w.field == e.clientsF {
-			stores[as] = true
+	storesIn := map[*ast.BlockStmt]bool{}
+	bind := c14bindings(f, 2)
+	rfs := reach(f, 2)
+	for _, g := range rfs {
+		if g != f && len(e.sourceCalls(g, g.Body, false)) > 0 {
+			continue
+		}
+		for _, w := range e.trieWrites(g, g.Body) {
+			if as, ok := w.at.(*ast.AssignStmt); ok && w.field == e.clientsF {
+				stores[as] = true
+				storesIn[g.Body] = true
+			}
 		}
 	}
-	// variables holding the currently recorded qos: v[, ok] := X.clients[<param>]
+	// variables holding the requested qos (insert's integer parameter and helper parameters bound
+	// to it) and the currently recorded qos: v[, ok] := X.clients[<client parameter>]
 	var qosParams []types.Object
+	var qosLike, curVars []string
 	for _, p := range c14params(f) {
-		if b, ok := p.Type().Underlying().(*types.Basic); ok && b.Info()&types.IsInteger != 0 {
+		if c14isByte(p.Type()) {
 			qosParams = append(qosParams, p)
 		}
 	}
-	var curVars []types.Object
-	ast.Inspect(f.Body, func(n ast.Node) bool {
-		if as, ok := n.(*ast.AssignStmt); ok && len(as.Rhs) == 1 {
-			if ix, ok := ast.Unparen(as.Rhs[0]).(*ast.IndexExpr); ok {
-				if _, isC := c14fieldRecv(f, ix.X, e.clientsF); isC && c14isParam(f, c14obj(f, ix.Index)) {
-					if o := c14obj(f, as.Lhs[0]); o != nil {
-						curVars = append(curVars, o)
-					}
+	for _, g := range rfs {
+		g := g
+		for _, p := range c14params(g) {
+			for _, q := range qosParams {
+				if c14denotes(bind, g, p, q, 3) {
+					qosLike = append(qosLike, c14varRender(g, p))
 				}
 			}
 		}
-		return true
-	})
-	res := analyze(c, f, flow.Config{NoHavoc: true, OnNode: func(st *flow.State, n ast.Node) {
-		if stores[n] {
-			st.Set(ev, flow.True)
-		}
-	}})
+		ast.Inspect(g.Body, func(n ast.Node) bool {
+			if as, ok := n.(*ast.AssignStmt); ok && len(as.Rhs) == 1 {
+				if ix, ok := ast.Unparen(as.Rhs[0]).(*ast.IndexExpr); ok {
+					if _, isC := c14fieldRecv(g, ix.X, e.clientsF); isC && c14isParam(g, c14obj(g, ix.Index)) {
+						if o := c14obj(g, as.Lhs[0]); o != nil {
+							curVars = append(curVars, c14varRender(g, o))
+						}
+					}
+				}
+			}
+			return true
+		})
+	}
+	res := analyze(c, f, flow.Config{NoHavoc: true,
+		Inline: e.selectiveInline(f, 2, func(g *flow.Func) bool { return storesIn[g.Body] }),
+		OnNode: func(st *flow.State, n ast.Node) {
+			if stores[n] {
+				st.Set(ev, flow.True)
+			}
+		}})
 	if res == nil {
 		return
 	}
 	sameKnown := func(st *flow.State) bool {
-		for _, v := range curVars {
-			for _, q := range qosParams {
-				a, b := c14varRender(f, v), c14varRender(f, q)
-				if b < a {
-					a, b = b, a
+		for _, a := range curVars {
+			for _, b := range qosLike {
+				x, y := a, b
+				if y < x {
+					x, y = y, x
 				}
-				if st.Is("eq:"+a+"=="+b, flow.True) {
+				if st.Is("eq:"+x+"=="+y, flow.True) {
 					return true
 				}
 			}
 		}
 		return false
+	}
+	errFalse := func(st *flow.State) bool { return false }
+	if src := e.sourceCalls(f, f.Body, false); len(src) == 1 {
+		ast.Inspect(f.Body, func(n ast.Node) bool {
+			if as, ok := n.(*ast.AssignStmt); ok && len(as.Rhs) == 1 && ast.Unparen(as.Rhs[0]) == ast.Expr(src[0]) && len(as.Lhs) == 2 {
+				if id, ok := as.Lhs[1].(*ast.Ident); ok && id.Name != "_" {
+					k := f.NilKey(id)
+					errFalse = func(st *flow.State) bool { return st.Is(k, flow.False) }
+				}
+			}
+			return true
+		})
 	}
 	var bad *flow.Exit
 	n := 0
@@ -1177,6 +1298,9 @@ func c14InsertAlways(e *c14env, f *flow.Func, cons string) {
 		last := ex.Return.Results[len(ex.Return.Results)-1]
 		if nn, ok := c14nonNilErr(f, ex.State, last); !ok || nn {
 			continue // error exit (or unclassified): R-C14-2
+		}
+		if e.insertPrevalidated && errFalse(ex.State) {
+			continue // every call site validated the batch first: the level source cannot fail here
 		}
 		n++
 		if !ex.State.Is(ev, flow.True) && !sameKnown(ex.State) {
